@@ -31,8 +31,8 @@ RTOL = ops._real(1e-05)
 class ColumnLoop:
     """for i in range(n): perturb, compare column i, undo.  invariant(i): xtest == xval pointwise, columns < i passed"""
 
-    def __init__(self, u, xval):
-        self.u, self.xval = u, xval
+    def __init__(self, u, xval, judge=None):
+        self.u, self.xval, self.judge = u, xval, judge
 
     def sequence(self, it, frame, iterable):
         self.xtest = frame.locals["xtest"]
@@ -50,9 +50,20 @@ class ColumnLoop:
         self.xtest.cell.val = Vec(xv.n, xv.f, "real")  # = xval pointwise (the invariant)
         self.k = k
         self.u._loop_k = k
+        self.n_calls = len(self.judge["calls"]) if self.judge else 0
 
     def preserve(self, it, frame, site, k, n):
         it.path.prove(self._eq(), f"{site}:invariant:preserve:perturbation_undone(xtest==xval)", kind="invariant")
+        # an iteration that ends without DerivError has COMPARED column k with the finite difference and found it
+        # within the tolerance (np.allclose: |d - fd| <= atol + rtol |fd|): a wrong column is never passed over
+        if self.judge:
+            J = self.judge
+            new = [c for c in J["calls"][self.n_calls:] if isinstance(c, tuple)]
+            ok = it.path.prove(len(new) == 1, f"{site}:invariant:preserve:column_evaluated_exactly_once_per_iteration", kind="invariant", props=["C19"])
+            if ok:
+                ret = new[-1][1]
+                fd = lambda r: (V(ret).f(r) - V(J["F0"]).f(r)) / J["eps"]
+                it.path.prove(passes(lambda r: ops._real(J["eD"](r, k)), fd, J["m"], J["tol"]), f"{site}:invariant:preserve:no_DerivError=>column_within_tolerance_of_the_finite_difference", kind="invariant", props=["C19"])
 
     def at_break(self, *a):
         raise Unsupported("break in deriv_check loop")
@@ -79,7 +90,7 @@ def setup(u, sparse):
         return v if sparse else v.vec().f(0)
 
     if sparse:
-        D = Mat(m, n, None, name="D")
+        D = Mat(m, n, None, name="D", fmt="csc")  # what dval.tocsc() hands to the column loop
         D.coo = None
     else:
         D = u.vec("grad", n, region="USER")
@@ -97,12 +108,12 @@ def dc_unit(sparse):
     def dc(u):
         params, n, m, x, eps, tol, f, calls, F0, D = setup(u, sparse)
         log = StoreLog(u)
-        loop = ColumnLoop(u, x)
+        eD = matmodel.entry_fn(u.it, D) if sparse else (lambda r, c: V(D).f(c))
+        loop = ColumnLoop(u, x, judge=dict(calls=calls, F0=F0, eps=eps, tol=tol, m=m, eD=eD))
         u.it.loop_specs[DC + "deriv_check/loop#0"] = loop
         kind, val = u.raised(lambda: u.call(DC + "deriv_check", f, x, D, params))
         xv = V(x)
         k = getattr(u, "_loop_k", None)
-        eD = matmodel.entry_fn(u.it, D) if sparse else (lambda r, c: V(D).f(c))
         u.ensure(QAll(n, lambda j: x.vec().f(j) == xv.f(j)), "xval_not_modified", props=["C11", "C19"])
         if kind == "raise":
             exc = val.exc
